@@ -1,6 +1,8 @@
 package main
 
 import (
+	"strings"
+	"sync"
 	"math/big"
 
 	"github.com/onflow/crypto"
@@ -128,4 +130,17 @@ func wipe(b []byte) {
 	for i := range b {
 		b[i] ^= 0xA5
 	}
+}
+
+// refusals of the decoders on inputs of the documented range (see skFromInt)
+var refusals []string
+var refusalMu sync.Mutex
+
+func refusalVerdict() string {
+	refusalMu.Lock()
+	defer refusalMu.Unlock()
+	if len(refusals) == 0 {
+		return "ok"
+	}
+	return "private-key-of-the-documented-range-refused: " + strings.Join(refusals, "; ")
 }
